@@ -172,6 +172,10 @@ func (s *sandboxFacts) summariseGuards(method string) map[*ssa.Function]int {
 					}
 				} else if isConstBool(r, false) {
 					passing = false
+				} else if s.boolResultGuarded(r, p, method, fl, map[ssa.Value]bool{}) {
+					// `return a && b && policy.IsXAllowed(name)`: a phi of false constants and
+					// the query itself: true only when the policy allowed the name
+					passing = false
 				}
 				if passing && !fl.at(in) {
 					good = false
@@ -183,6 +187,43 @@ func (s *sandboxFacts) summariseGuards(method string) map[*ssa.Function]int {
 		}
 	}
 	return out
+}
+
+// boolResultGuarded: the bool value is true only where the policy has been consulted for name
+// (or the context is not sandboxed): a false constant, the policy query for the same name, or a
+// phi of such values / of values arriving over edges on which the guard fact holds.
+func (s *sandboxFacts) boolResultGuarded(v ssa.Value, name ssa.Value, method string, fl *boolFlow, seen map[ssa.Value]bool) bool {
+	if seen[v] {
+		return true
+	}
+	seen[v] = true
+	if isConstBool(v, false) {
+		return true
+	}
+	if arg, ok := policyQuery(v, method); ok && sameValue(arg, name) {
+		return true
+	}
+	if ph, ok := v.(*ssa.Phi); ok {
+		for i, e := range ph.Edges {
+			if s.boolResultGuarded(e, name, method, fl, seen) {
+				continue
+			}
+			pred := ph.Block().Preds[i]
+			held := fl.out(pred, fl.in[pred])
+			if !held {
+				for si, sc := range pred.Succs {
+					if sc == ph.Block() && fl.edge(pred, si) {
+						held = true
+					}
+				}
+			}
+			if !held {
+				return false
+			}
+		}
+		return true
+	}
+	return false
 }
 
 // alwaysNonNilError: every return of g returns a MakeInterface (a concrete, hence non-nil, error).
